@@ -136,12 +136,20 @@ def index_list(inp, out):
     return "unordered:" + ",".join(pos)
 
 
+class _Str(str):
+    """a str subclass instance (what e.g. a config library hands over)"""
+
+
 def mk_items(cands, kinds):
-    """candidate objects: kind 's' -> a fresh str object, 'v' -> Version"""
+    """candidate objects: kind 's' -> a fresh str object, 'v' -> Version, 'S' -> an instance of a str subclass,
+    'V' -> an instance of a Version subclass"""
     _, _, _, Version, _ = P()
+
+    class _Ver(Version):
+        pass
     items = []
     for c, k in zip(cands, kinds):
-        items.append(Version(c) if k == "v" else "".join(list(c)))
+        items.append(Version(c) if k == "v" else _Ver(c) if k == "V" else _Str(c) if k == "S" else "".join(list(c)))
     return items
 
 
